@@ -16,8 +16,6 @@ import (
 	"github.com/taurusgroup/multi-party-sig/pkg/party"
 	"github.com/taurusgroup/multi-party-sig/pkg/protocol"
 	"github.com/taurusgroup/multi-party-sig/protocols/doerner"
-
-	"verifharness/sx"
 )
 
 func init() { props["C17"] = runC17; props["C17RACE"] = runC17Race }
@@ -58,7 +56,8 @@ func (c *ctx) c17History(sp SessionSpec, seed int64, sh shapeInfo, pts map[party
 	// the panicking message is chosen from a separate stream: the history itself is the one the seed gives without it
 	var plan *c17PanicPlan
 	if prng := rand.New(rand.NewSource(seed ^ 0x5eed17)); withPanic && len(pts[victim]) > 0 {
-		plan = &c17PanicPlan{Pt: pts[victim][prng.Intn(len(pts[victim]))], Val: "c17: processing this message panics"}
+		plan = &c17PanicPlan{Pt: pts[victim][prng.Intn(len(pts[victim]))], Val: roundPanicValue}
+		plan.Pt.Fin = prng.Intn(3) == 0 // a third: the message is accepted, Finalize of its round panics
 		sp = c17WithPanic(sp, victim, plan)
 	}
 	s := sp.build(rng, det)
@@ -67,10 +66,11 @@ func (c *ctx) c17History(sp SessionSpec, seed int64, sh shapeInfo, pts map[party
 	if plan != nil {
 		hist = append(hist, "processing "+plan.Pt.String()+" panics")
 	}
-	// what the model is told about a message: the one whose processing panics is an invalid message
+	// what the model is told about a message: the one the round code panics on carries the model's panic flag
+	// (1 = while verifying / storing it, 2 = in Finalize of its round); it is a genuine message otherwise (valid)
 	mark := func(e *Env) *Env {
 		if plan != nil && e.To == victim && plan.Pt.matches(e.Msg) {
-			e.Valid = false
+			e.Panics = plan.Pt.flag()
 		}
 		return e
 	}
@@ -204,16 +204,13 @@ func (c *ctx) c17History(sp SessionSpec, seed int64, sh shapeInfo, pts map[party
 	class := sp.Name
 	if plan != nil {
 		class += map[bool]string{true: "/panic-recovered", false: "/panic-not-reached"}[plan.Fired() > 0]
+		class += map[bool]string{true: "/in-finalize", false: "/in-verify"}[plan.Pt.Fin]
 	}
 	c.res.Case(class, sp.Name+strings.Join(hist, ","), len(hist) > 0)
 	c.res.Sample(2, map[string]interface{}{"spec": sp.Name, "victim": victim, "history": hist})
 	// model replay for every node
 	for _, n := range s.Nodes {
-		var norm func(int, sx.V, sx.V) (sx.V, sx.V)
-		if plan != nil && n.ID == victim {
-			norm = c17MaskCulpritsAfterPanic(n)
-		}
-		i, mo, ro, err := c.CompareWithModelNorm(s, n, sh, true, norm)
+		i, mo, ro, err := c.CompareWithModel(s, n, sh, true)
 		if err != nil {
 			c.res.Corr(false)
 			c.res.Violate("correspondence", "C17/model-error", err.Error(), nil)
@@ -231,7 +228,7 @@ func runC17(c *ctx) {
 	c.res.Rule = "random API histories (deliver / Stop / abort notice / foreign / duplicate / Result) on one handler at random points of xor and FROST keygen sessions; " +
 		"plus a third as many histories in which processing one incoming message panics inside the round (proxy round.Session): the session must end cleanly with the panic error; " +
 		"oracles: no panic, no hang, closed iff ended, Result stable after the end, Stop ends a running session; each history replayed in the Coq model " +
-		"(a recovered panic is replayed as an invalid message, culprits masked: the model has no panic event); non-trivial = non-empty history; " +
+		"(the message the round code panics on carries the model's panic flag -- in verify/store, or in Finalize of its round -- and the full observation is compared: nobody named, error kind, forwarded messages, notice, closes, queues, digests); non-trivial = non-empty history; " +
 		"concurrent sessions with a panicking message under Result / CanAccept / Stop / Accept from other goroutines (no escaping panic, Result fixed after the end, closed)"
 	n := 150
 	if c.thorough() {
